@@ -27,6 +27,10 @@ func printWitnesses() {
 		{"F-C16-pre-lhs", leaf("implementation_version", "<", "3.9.6rc1", true), nil},
 		{"F-C16-pre-lhs", leaf("python_version", "<=", "3.9.dev1", true), nil},
 		{"F-C16-post-lhs-ne", leaf("implementation_version", "!=", "3.9.6.post1", true), nil},
+		{"F-C16-blank-literal", leaf("python_version", "==", " 3.9", false), nil},
+		{"F-C16-local-version", leaf("implementation_version", "==", "3.9.6+local", true), nil},
+		{"F-C16-epoch-lhs", leaf("python_version", ">", "1!3.9", true), nil},
+		{"F-C16-underscore-sep", leaf("implementation_version", ">=", "3.9.6_rc1", false), nil},
 		{"F-C16-eqeqeq-case", leaf("platform_system", "===", "linux", false), nil},
 		{"F-C16-eqeqeq-case", leaf("os_name", "===", "a b", false), nil},
 		{"F-C16-legacy-rhs", leaf("platform_system", "!=", "6.9.10", false), nil},
